@@ -763,3 +763,62 @@ Proof.
   intros Hf Hn. destruct (assign_splat t v doc f Hf Hn) as (st' & He & Hd). exists st'. split; [exact He|].
   rewrite Hd, set_all_children. reflexivity.
 Qed.
+
+(* ---------- compound assignment at any simple path ---------- *)
+(* `p o= r` is `p = (old o r)`: the path is created, the match is cloned ($c), `$c o r` is evaluated read-only in the
+   caller's context (r assignment-free: it only appends), and the match receives the (single) result. *)
+Definition var_l : str := [36; 108].
+Definition var_c : str := [36; 99].
+
+Theorem compound_path_value p o r doc f n1 pos :
+  p <> [] -> Forall step_ok p -> (length p + 3 <= f)%nat -> afree r = true ->
+  vivp p doc = Some (n1, pos) ->
+  forall old, get_at n1 pos = Some old ->
+  exists g cp, forall q st3 w,
+    eval f (EBin o (EVar var_c) r) true [(var_l, [(O, pos)]); (var_c, [cp])] [(O, [])] ([mkRoot None None n1] ++ g) = Ok ([q], st3) ->
+    ptr_eqb (O, pos) q = false -> deref st3 q = Some w ->
+    deref ([mkRoot None None n1] ++ g) cp = Some old /\
+    exists st', eval (S f) (ECompound o (pe p) r) false [] [(O, [])] (init_store doc) = Ok ([(O, [])], st')
+                /\ deref st' (O, []) = Some (upd_at n1 pos (fun _ => w)).
+Proof.
+  intros Hne Hok Hfuel Haf Ev old Hold.
+  assert (Hd0 : deref (init_store doc) (O, []) = Some doc) by reflexivity.
+  destruct (eval_pe_rw p f [] O [] (init_store doc) doc n1 pos Hne Hok ltac:(lia) Hd0 Ev) as [g1 Hg1].
+  change (update (init_store doc) (O, []) (fun _ => n1)) with [mkRoot None None n1] in Hg1.
+  set (st1 := [mkRoot None None n1] ++ g1) in *.
+  assert (Hdpos : deref st1 (O, pos) = Some old).
+  { unfold st1, deref. cbn [fst snd app nth_error r_body]. exact Hold. }
+  set (rt := replacement_root st1 (O, pos) old).
+  exists (g1 ++ [rt]), (length st1, []).
+  intros q st3 w Hr Hneq Hdq.
+  assert (Hext : exists x, st3 = ([mkRoot None None n1] ++ (g1 ++ [rt])) ++ x).
+  { assert (Ha : afree (EBin o (EVar var_c) r) = true) by (cbn [afree]; rewrite Haf; reflexivity).
+    destruct (ro_store_monotone f _ _ _ _ _ Ha Hr) as [x Hx]. exists x. exact Hx. }
+  split.
+  { unfold deref. cbn [fst snd]. rewrite app_assoc. fold st1. rewrite nth_error_app_len. reflexivity. }
+  cbn [eval]. rewrite Hg1. cbn [bind fst snd app Eval.iter].
+  unfold deref_r. rewrite Hdpos. cbn [of_option bind]. unfold alloc_repl, alloc. fold rt.
+  unfold cross. cbn [each]. unfold cross1.
+  match goal with
+  | |- context [eval f (EVar ?x) true ?a ?b ?c] =>
+      replace (eval f (EVar x) true a b c) with (@Ok out ([(O, pos)], c)) by (destruct f; [lia | reflexivity])
+  end.
+  cbn [bind fst snd app each].
+  unfold results_for_rhs, no_short. cbn [bind].
+  assert (Hst : st1 ++ [rt] = [mkRoot None None n1] ++ (g1 ++ [rt])) by (unfold st1; rewrite <- app_assoc; reflexivity).
+  match goal with
+  | |- context [eval f (EBin o (EVar ?x) r) true ?a ?b ?c] =>
+      replace (eval f (EBin o (EVar x) r) true a b c) with (@Ok out ([q], st3))
+        by (symmetry; rewrite <- Hr; f_equal; exact Hst)
+  end.
+  cbn [bind fst snd each].
+  unfold assign_calc, lift2, update_from. rewrite Hneq. unfold deref_r. rewrite Hdq. cbn [of_option bind fst snd app].
+  eexists. split; [reflexivity|].
+  destruct Hext as [x Hx]. rewrite Hx.
+  cbn [app update upd_nth fst snd deref nth_error r_body r_parent r_key get_at]. reflexivity.
+Qed.
+
+Example compound_example :
+  run (ECompound OAdd (pe [EK [97]; EI [49] 1]) (ELit TInt [53])) (Map [([97], Seq [(RIdx 0, Scalar TInt [49]); (RIdx 1, Scalar TInt [50])])])
+  = tag_ok ++ ser_node (Map [([97], Seq [(RIdx 0, Scalar TInt [49]); (RIdx 1, Scalar TInt [55])])]) ++ [10].
+Proof. vm_compute. reflexivity. Qed.
